@@ -498,10 +498,17 @@ func (c *Client) validVirtualChannelProposal(prop *VirtualChannelProposalMsg, ou
 	if len(indexMap) != numPeers {
 		return errors.Errorf("expected index map of length %d, got %d", numPeers, len(indexMap))
 	}
+	mapped := make(map[channel.Index]struct{}, len(indexMap))
 	for i, p := range indexMap {
 		if int(p) >= numPeers {
 			return errors.Errorf("invalid index map entry %d: %d", i, p)
 		}
+		// Every participant of the virtual channel must be mapped to a
+		// different participant of the parent channel.
+		if _, ok := mapped[p]; ok {
+			return errors.Errorf("duplicate index map entry %d: %d", i, p)
+		}
+		mapped[p] = struct{}{}
 	}
 
 	virtualBals := transformBalances(prop.InitBals.Balances, parentState.NumParts(), indexMap)
